@@ -1,6 +1,6 @@
 """C01 compiled SQL returns the relation the pipeline denotes."""
 import json, random
-import anchortrace
+import anchortrace, preptrace
 import vlib, relgen, relcheck
 
 MANIFEST = dict(
@@ -22,6 +22,20 @@ SAFE = dict(declared=True, shared_k=False, append_inline=True, open_take=False, 
 FULL = dict(declared=True, shared_k=True, append_inline=False, open_take=True, dup_names=True, shapes=True)
 RICH = dict(declared=False, shared_k=False, append_inline=True, open_take=False, dup_names=False, literal=True, functions=True, shapes=True)
 UNDECL = dict(declared=False, shared_k=False, append_inline=True, open_take=False, dup_names=False, shapes=True)
+
+
+# undeclared relations (their column lists contain a wildcard): the set-operation stages must fall back or report the dialect error
+DIRECTED_STAGE_PROGRAMS = [
+    "from t | remove u", "from t | intersect u", "from t | select {a, b} | remove (from u | select {a, b})",
+    "from t | select {a, b} | intersect (from u | select {a, b})", "from t | append u | group this (take 1)",
+    "from t | select {a, b} | group {a, b} (take 1) | remove (from u | select {a, b})",
+    "from t | select {a, b} | intersect (from u | select {a, b}) | group {a, b} (take 1)",
+    "from t | select {a, b} | group {a, b} (take 1) | intersect (from u | select {a, b}) | group {a, b} (take 1)",
+    "from t | select {a, b} | group {a} (take 1) | filter b > 0 | select {a}",
+    "from t | select {a, b} | group {a} (sort b | take 2..) | select {a}", "from t | select {a, b} | group {a} (take ..3)",
+    "from t | select {a, b} | group {a} (sort {-b} | take 1)", "from t | select {a, b} | group {a, b} (take 2..2)",
+    "from t | group {a} (take 1) | select {a}", "from t | select {a, b} | append (from u | select {a, b}) | append (from v | select {a, b}) | group {a, b} (take 1)",
+]
 
 
 def explore(ctx, label, rng, n, profile, target, no_append=False, cases=None):
@@ -73,7 +87,11 @@ def run(ctx):
         required_theorems=["join_all_mem_iff", "join_all_no_null", "setop_rewrite_null_counterexample", "setop_rewrite_multiplicity_counterexample", "chain_correct_rel", "chain_cut_independent", "table_sound_partial", "table_sound_full_counterexample", "split_respects_clause_order", "atomic_is_suffix", "assemble_correct",
                            "assemble_correct_agg", "split_glue_rename", "assemble_correct_rel", "assemble_correct_rel_perm", "assemble_correct_rel_of_split", "aggregate_order_independent_rel", "aggregate_one_row", "group_empty",
                            "count_counts_nulls", "sum_empty_is_zero", "reorder_moves_only_over_sorts_and_takes", "nonplain_never_passes_take",
-                           "reorder_step_keeps_rows", "window_not_hoisted_over_take"])
+                           "reorder_step_keeps_rows", "window_not_hoisted_over_take",
+                           "distinct_only_for_first_row_of_whole_frame", "distinct_on_only_for_one_row", "group_take_first_over_all_columns_is_distinct",
+                           "distinct_needs_all_columns_counterexample", "distinct_judged_on_final_frame_counterexample", "row_number_filter_is_positional_take",
+                           "range_filter_means_the_range", "distinct_leaves_plain_pipelines", "union_eliminates_append", "except_rewrite_guard",
+                           "anti_join_is_except_on_null_free_rows", "except_rewrite_null_counterexample"])
     ctx.rule = ("random well-scoped programs of the relational core (from/select/derive/filter/sort/take/aggregate/group/join/append, "
                 "let tables, 1-7 transforms) with resolved positional form for the Lean reference semantics, x random database instances "
                 "(0-7 rows, NULLs, duplicates, empty tables); the real SQL is executed on SQLite and compared with Model.Rel.evalSrc as a "
@@ -131,6 +149,12 @@ def run(ctx):
     if hooked:
         ctx.obligation("correspondence: preprocess::reorder = Model.Reorder.reorderTr, split_off_back / anchor_split = Model.Anchor on every recorded call",
                        n_bad == 0 and n_ev > 0, f"{n_ev} recorded calls replayed, {n_bad} differ")
+        # the stages distinct / union / except / intersect of preprocess: every recorded stage call replayed through Model.Preprocess
+        # (declared and undeclared tables; sqlite / mssql: no EXCEPT ALL, postgres / duckdb: DISTINCT ON, generic: everything)
+        sprogs = DIRECTED_STAGE_PROGRAMS + [c.prql for c in setop] + [c.prql for c in relgen.setop_cases(UNDECL, seed=22)] + [c.prql for c in shaped[:300 if quick else 1500]] + tprogs[:400 if quick else 2500]
+        n_st, n_stbad, _ = preptrace.run_suite(ctx, sprogs, "stages", targets=("sql.sqlite", "sql.generic", "sql.postgres", "sql.mssql", "sql.duckdb"))
+        ctx.obligation("correspondence: preprocess::{distinct, union, except, intersect} = Model.Preprocess on every recorded stage call",
+                       n_stbad == 0 and n_st > 0, f"{n_st} recorded stage calls replayed, {n_stbad} differ")
     else:
         ctx.assumptions.append("the trace hooks are not available in this tree: the pass mirrors were not compared this run")
     ctx.obligation("oracle: real SQL on SQLite returns the rows of Model.Rel.evalSrc (all unlisted cases)", not [v for v in ctx.violations if v["kind"] == "failing-input"],
